@@ -452,6 +452,9 @@ func (pa *path) doReloadConf(req pathReloadConfReq) {
 	pa.confMutex.Unlock()
 
 	if pa.conf.HasStaticSource() {
+		if req.matchesChanged {
+			pa.source.(*staticsources.Handler).ReloadMatches(req.matches)
+		}
 		pa.source.(*staticsources.Handler).ReloadConf(newConf)
 	}
 
